@@ -551,6 +551,11 @@ def run_cases(P, exes, cases):
 
 def build_exes(P):
     exes = {}
+    if getattr(P, 'NEEDS_LPCONVERT', False):
+        lp, lerr = build_lpconvert()
+        if lp is None:
+            return {}, ['lpconvert: %s' % lerr]
+        os.environ['VERIF_LPCONVERT'] = lp
     variants = getattr(P, 'VARIANTS', {'default': {}})
     errs = []
 
@@ -777,8 +782,10 @@ def finish(pid, tier, seed, t0, pr, P, cases, metas, impl_obs, status, notes, kn
         'wall_s': round(time.time() - t0, 2),
         'violations': 1 if status else 0,
     }
-    os.makedirs(os.path.join(ROOT, 'evidence'), exist_ok=True)
-    json.dump(ev, open(os.path.join(ROOT, 'evidence', pid + '.json'), 'w'), indent=1)
+    # runs against a scratch tree (VERIF_REPO) must not overwrite the evidence of /repo itself
+    evdir = os.path.join(ROOT, 'evidence') if WORK == BUILD else os.path.join(WORK, 'evidence')
+    os.makedirs(evdir, exist_ok=True)
+    json.dump(ev, open(os.path.join(evdir, pid + '.json'), 'w'), indent=1)
     log('%s done: status=%d cases=%d wall=%.1fs %s' % (pid, status, len(cases), time.time() - t0, stats))
 
 
@@ -788,6 +795,31 @@ COMMON_TB = [
     'Coq extraction with ExtrOcamlBasic only (no Extract Constant of ours) + OCaml 4.13.1 + ocaml/driver.ml; cross-checked per run against vm_compute on a sample',
     'correspondence harness (harness/*.cpp, tools/check.py, props/*.py) and g++ 12 with ASan/UBSan/LSan',
 ]
+
+
+def impl_only(pid, tier):
+    """Development helper: run generator + implementation + oracle only and summarise failures by signature."""
+    seed = int(os.environ.get('VERIF_SEED', '1'))
+    P = importlib.import_module('props.' + pid)
+    coq_prepare()
+    exes, berrs = build_exes(P)
+    if berrs:
+        print('BUILD FAILED', berrs)
+        return 1
+    gen = P.gen(seed, tier)
+    cases = load_corpus(pid) + [c for c, _ in gen]
+    t0 = time.time()
+    obs = run_cases(P, exes, cases)
+    by = {}
+    for c, o in zip(cases, obs):
+        sigs = ['crash:' + re.sub(r'\s+', '_', o[1])] if (o and o[0] == 'CRASH') else P.oracle(c, o)
+        for sg in sigs:
+            by.setdefault(sg, []).append(c)
+    print('%d cases in %.1fs; %d distinct failure signatures' % (len(cases), time.time() - t0, len(by)))
+    for sg, cs in sorted(by.items(), key=lambda kv: -len(kv[1])):
+        c = min(cs, key=len)
+        print('%5d  %s\n       e.g. %s' % (len(cs), sg, P.describe(c)[:300]))
+    return 1 if by else 0
 
 
 def all_pids():
@@ -845,6 +877,10 @@ def main(argv):
         return setup()
     if '--baseline-off' in argv:
         return baseline_off()
+    if '--impl-only' in argv:
+        a = [x for x in argv if x != '--impl-only']
+        t = a[a.index('--tier') + 1] if '--tier' in a else 'quick'
+        return impl_only(a[0], t)
     tier = os.environ.get('VERIF_TIER', 'quick')
     replay = None
     pids = []
